@@ -13,6 +13,7 @@ import (
 	"bytes"
 	"crypto/cipher"
 	"fmt"
+	"strings"
 
 	gcipher "github.com/emmansun/gmsm/cipher"
 	"github.com/emmansun/gmsm/sm4"
@@ -43,6 +44,10 @@ func selftest(x *mon.Ctx) {
 	}
 	x.Note("batched path: the library's block offers batches of %d bytes (0 = no batch interface in this configuration; emulated block by block with batches of %d bytes)", batch, loopBatch*16)
 }
+
+// raceBuild: the race/checkptr variant is 4-5 times slower; it keeps the full
+// lattice and drops repetitions.
+func raceBuild(x *mon.Ctx) bool { return strings.HasPrefix(x.Variant, "race") }
 
 // ---------------------------------------------------------------------------
 // the three library paths
